@@ -713,6 +713,65 @@ def rerun_state(class_node, base_nodes=()):
                                  and x.value.id == 'self'}
                         if t.attr not in reads:
                             reset.add(t.attr)
+    # ... where the re-creation counts for a mutation only if it comes first in every run: it is a statement of another method's
+    # body itself (not under a test or in a loop), or it is definitely executed before the mutation inside the same method.  A
+    # rebinding on one branch does not re-create the state the other branch appends to.
+    def rebinds(st, attr):
+        if not isinstance(st, ast.Assign):
+            return False
+        for t in st.targets:
+            if isinstance(t, ast.Attribute) and isinstance(t.value, ast.Name) and t.value.id == 'self' and t.attr == attr:
+                reads = {x.attr for x in ast.walk(st.value) if isinstance(x, ast.Attribute) and isinstance(x.value, ast.Name)
+                         and x.value.id == 'self'}
+                return attr not in reads
+        return False
+
+    def definitely(st, attr):
+        if rebinds(st, attr):
+            return True
+        if isinstance(st, ast.If):
+            return bool(st.orelse) and any(definitely(x, attr) for x in st.body) and any(definitely(x, attr) for x in st.orelse)
+        if isinstance(st, (ast.With, ast.AsyncWith)):
+            return any(definitely(x, attr) for x in st.body)
+        return False
+
+    top_reset = {}
+    for m in methods:
+        for st in m.body:
+            for attr in ctor:
+                if definitely(st, attr):
+                    top_reset.setdefault(attr, set()).add(m.name)
+
+    def assigned_before(stmts, attr, node, a=False):
+        for st in stmts:
+            if any(x is node for x in ast.walk(st)):
+                if isinstance(st, ast.If):
+                    if any(x is node for x in ast.walk(st.test)):
+                        return a
+                    return assigned_before(st.body if any(x is node for b_ in st.body for x in ast.walk(b_)) else st.orelse, attr, node, a)
+                if isinstance(st, (ast.For, ast.AsyncFor, ast.While)):
+                    blk = st.body if any(x is node for b_ in st.body for x in ast.walk(b_)) else \
+                        (st.orelse if any(x is node for b_ in st.orelse for x in ast.walk(b_)) else None)
+                    return assigned_before(blk, attr, node, a) if blk is not None else a
+                if isinstance(st, (ast.With, ast.AsyncWith)):
+                    if any(x is node for b_ in st.body for x in ast.walk(b_)):
+                        return assigned_before(st.body, attr, node, a)
+                    return a
+                if isinstance(st, ast.Try):
+                    for blk in [st.body, st.orelse, st.finalbody] + [h.body for h in st.handlers]:
+                        if any(x is node for b_ in blk for x in ast.walk(b_)):
+                            return assigned_before(blk, attr, node, a)
+                    return a
+                return a
+            a = a or definitely(st, attr)
+        return a
+
+    def is_reset(attr, m, node):
+        if attr not in reset:
+            return False
+        if top_reset.get(attr, set()) - {m.name}:
+            return True
+        return assigned_before(m.body, attr, node)
     out = []
     for m in methods:
         for n in ast.walk(m):
@@ -721,7 +780,7 @@ def rerun_state(class_node, base_nodes=()):
             def const_key(c_):
                 return isinstance(c_, ast.Constant)
             if isinstance(n, ast.Call) and isinstance(n.func, ast.Attribute) and n.func.attr in MUT and own(n.func.value) \
-                    and n.func.value.attr not in reset:
+                    and not is_reset(n.func.value.attr, m, n):
                 # setdefault / pop under a constant key settle after the first run (idempotent); growth does not
                 if n.func.attr in ('setdefault', 'pop', 'discard', 'remove', 'clear') and (not n.args or const_key(n.args[0])):
                     # ... unless the entry itself is then grown: self.x.setdefault(k, []).append(v)
@@ -732,15 +791,15 @@ def rerun_state(class_node, base_nodes=()):
             elif isinstance(n, ast.Call) and isinstance(n.func, ast.Attribute) and n.func.attr in MUT and \
                     isinstance(n.func.value, ast.Call) and isinstance(n.func.value.func, ast.Attribute) and \
                     n.func.value.func.attr in ('setdefault', 'get') and own(n.func.value.func.value) and \
-                    n.func.value.func.value.attr not in reset:
+                    not is_reset(n.func.value.func.value.attr, m, n):
                 out.append(('accumulates', n.func.value.func.value.attr, n))     # self.x.setdefault(k, []).append(v)
             elif isinstance(n, (ast.Assign, ast.AugAssign, ast.Delete)):
                 tgts = n.targets if isinstance(n, (ast.Assign, ast.Delete)) else [n.target]
                 for t in tgts:
-                    if isinstance(t, ast.Subscript) and own(t.value) and t.value.attr not in reset and \
+                    if isinstance(t, ast.Subscript) and own(t.value) and not is_reset(t.value.attr, m, n) and \
                             not (isinstance(n, ast.Assign) and const_key(t.slice)):
                         out.append(('accumulates', t.value.attr, n))
-                    if isinstance(n, ast.AugAssign) and own(t) and t.attr not in reset:
+                    if isinstance(n, ast.AugAssign) and own(t) and not is_reset(t.attr, m, n):
                         out.append(('accumulates', t.attr, n))
                     if isinstance(n, ast.Assign) and own(t) and t.attr not in reset:
                         reads = {x.attr for x in ast.walk(n.value) if isinstance(x, ast.Attribute) and isinstance(x.value, ast.Name)
